@@ -2,3 +2,9 @@
 //! Re-exports of crate-private items so that an external harness can run them in isolation.
 
 pub use super::debugee::dwarf::VerifPathSearchIndex as PathSearchIndex;
+
+/// DAP memory write path (C15): byte-granular write loop and the setVariable scalar parser.
+pub use crate::dap::yadap::session::data::{
+    ScalarKind as DapScalarKind, verif_parse_set_value as dap_parse_set_value,
+    verif_write_bytes as dap_write_bytes,
+};
